@@ -250,20 +250,25 @@ Definition m_load_latest (id : str) : M (option ekr) :=
             emit (EvMLoadLatest id (mres_of r)) ;;; ret r
   end.
 
+(* atomic insert-if-absent on the table *)
+Definition store_insert (id : str) (created : Z) (r : ekr) : M bool :=
+  fun w => match store_find id created (w_store w) with
+           | Some _ => (inr false, w)
+           | None => (inr true, with_store (w_store w ++ [(id, created, r)]) w)
+           end.
+
 (* Store returns (success, err).  The caller (tryStore) ignores err. *)
 Definition m_store (id : str) (created : Z) (r : ekr) : M bool :=
   f <- next_call ;;
-  s <- get_store ;;
-  let present := match store_find id created s with Some _ => true | None => false end in
   match f with
   | Some FErr => emit (EvMStore id created (e_parent r) StErr) ;;; ret false
   | Some FDup => emit (EvMStore id created (e_parent r) StDup) ;;; ret false
   | Some FErrAfter =>
-      (if present then ret tt else set_store (s ++ [(id, created, r)])) ;;;
-      emit (EvMStore id created (e_parent r) (StErrAfter (negb present))) ;;; ret false
+      wrote <- store_insert id created r ;;
+      emit (EvMStore id created (e_parent r) (StErrAfter wrote)) ;;; ret false
   | None =>
-      if present then emit (EvMStore id created (e_parent r) StFalse) ;;; ret false
-      else set_store (s ++ [(id, created, r)]) ;;; emit (EvMStore id created (e_parent r) StTrue) ;;; ret true
+      wrote <- store_insert id created r ;;
+      emit (EvMStore id created (e_parent r) (if wrote then StTrue else StFalse)) ;;; ret wrote
   end.
 
 (* ---- KMS and AEAD ---------------------------------------------------------------------------------- *)
@@ -308,30 +313,36 @@ Definition aead_decrypt (c : ctxt) (key : ptxt) : M ptxt :=
 
 (* ---- secrets (protected memory) -------------------------------------------------------------------- *)
 
+(* atomic allocation in the secret table; returns the new secret's number *)
+Definition secret_alloc (mat : ptxt) : M nat :=
+  fun w => (inr (length (w_secrets w)), with_secrets (w_secrets w ++ [{| s_mat := mat; s_closed := false |}]) w).
+
+Definition secret_count : M nat := gets (fun w => length (w_secrets w)).
+
 Definition secret_new (mat : ptxt) : M nat :=
   f <- next_call ;;
-  ss <- get_secrets ;;
   match f with
-  | Some _ => emit (EvSNew (length ss) mat false) ;;; fail ErrSecret
-  | None => set_secrets (ss ++ [{| s_mat := mat; s_closed := false |}]) ;;;
-            emit (EvSNew (length ss) mat true) ;;; ret (length ss)
+  | Some _ => n <- secret_count ;; emit (EvSNew n mat false) ;;; fail ErrSecret
+  | None => sid <- secret_alloc mat ;; emit (EvSNew sid mat true) ;;; ret sid
   end.
 
 Definition secret_random : M nat :=
   f <- next_call ;;
-  ss <- get_secrets ;;
   match f with
-  | Some _ => emit (EvSRand (length ss) false) ;;; fail ErrSecret
-  | None => set_secrets (ss ++ [{| s_mat := PKey (length ss); s_closed := false |}]) ;;;
-            emit (EvSRand (length ss) true) ;;; ret (length ss)
+  | Some _ => n <- secret_count ;; emit (EvSRand n false) ;;; fail ErrSecret
+  | None => n <- secret_count ;; sid <- secret_alloc (PKey n) ;; emit (EvSRand sid true) ;;; ret sid
   end.
 
+(* atomic: mark a secret closed; false if there is no such secret *)
+Definition secret_mark_closed (sid : nat) : M bool :=
+  fun w => match nth_error (w_secrets w) sid with
+           | Some sc => (inr true, with_secrets (set_nth sid {| s_mat := s_mat sc; s_closed := true |} (w_secrets w)) w)
+           | None => (inr false, w)
+           end.
+
 Definition secret_close (sid : nat) : M unit :=
-  ss <- get_secrets ;;
-  match nth_error ss sid with
-  | Some sc => set_secrets (set_nth sid {| s_mat := s_mat sc; s_closed := true |} ss) ;;; emit (EvSClose sid)
-  | None => ret tt
-  end.
+  ok <- secret_mark_closed sid ;;
+  if ok then emit (EvSClose sid) else ret tt.
 
 (* WithBytesFunc: the key material, or "secret has already been destroyed" *)
 Definition secret_bytes (sid : nat) : M ptxt :=
@@ -347,42 +358,43 @@ Definition kobj_get (k : nat) : M kobj :=
   ks <- get_kobjs ;;
   match nth_error ks k with Some o => ret o | None => fail ErrPanic end.
 
-Definition kobj_put (k : nat) (o : kobj) : M unit :=
-  ks <- get_kobjs ;; set_kobjs (set_nth k o ks).
-
+(* atomic allocation of a key object *)
 Definition kobj_alloc (o : kobj) : M nat :=
-  ks <- get_kobjs ;; set_kobjs (ks ++ [o]) ;;; ret (length ks).
+  fun w => (inr (length (w_kobjs w)), with_kobjs (w_kobjs w ++ [o]) w).
+
+(* atomic read-modify-write of one key object; returns the value before the update *)
+Definition kobj_modify (k : nat) (g : kobj -> kobj) : M kobj :=
+  fun w => match nth_error (w_kobjs w) k with
+           | Some o => (inr o, with_kobjs (set_nth k (g o) (w_kobjs w)) w)
+           | None => (inl ErrPanic, w)
+           end.
+
+Definition ko_with_once (b : bool) (o : kobj) : kobj :=
+  {| ko_created := ko_created o; ko_secret := ko_secret o; ko_revoked := ko_revoked o; ko_once := b; ko_refs := ko_refs o |}.
+Definition ko_with_refs (f : Z -> Z) (o : kobj) : kobj :=
+  {| ko_created := ko_created o; ko_secret := ko_secret o; ko_revoked := ko_revoked o; ko_once := ko_once o; ko_refs := f (ko_refs o) |}.
+Definition ko_with_revoked (b : bool) (o : kobj) : kobj :=
+  {| ko_created := ko_created o; ko_secret := ko_secret o; ko_revoked := b; ko_once := ko_once o; ko_refs := ko_refs o |}.
 
 (* internal.CryptoKey.Close: once *)
 Definition ck_close (k : nat) : M unit :=
-  o <- kobj_get k ;;
-  if ko_once o then ret tt
-  else kobj_put k {| ko_created := ko_created o; ko_secret := ko_secret o; ko_revoked := ko_revoked o;
-                     ko_once := true; ko_refs := ko_refs o |} ;;; secret_close (ko_secret o).
+  o <- kobj_modify k (ko_with_once true) ;;
+  if ko_once o then ret tt else secret_close (ko_secret o).
 
 (* cachedCryptoKey.Close: drop one reference, destroy at zero *)
 Definition cck_close (k : nat) : M unit :=
-  o <- kobj_get k ;;
-  let r := ko_refs o - 1 in
-  kobj_put k {| ko_created := ko_created o; ko_secret := ko_secret o; ko_revoked := ko_revoked o;
-                ko_once := ko_once o; ko_refs := r |} ;;;
-  if r >? 0 then ret tt else ck_close k.
+  o <- kobj_modify k (ko_with_refs (fun r => r - 1)) ;;
+  if ko_refs o - 1 >? 0 then ret tt else ck_close k.
 
 Definition cck_increment (k : nat) : M unit :=
-  o <- kobj_get k ;;
-  kobj_put k {| ko_created := ko_created o; ko_secret := ko_secret o; ko_revoked := ko_revoked o;
-                ko_once := ko_once o; ko_refs := ko_refs o + 1 |}.
+  kobj_modify k (ko_with_refs (fun r => r + 1)) ;;; ret tt.
 
 Definition ck_set_revoked (k : nat) (b : bool) : M unit :=
-  o <- kobj_get k ;;
-  kobj_put k {| ko_created := ko_created o; ko_secret := ko_secret o; ko_revoked := b;
-                ko_once := ko_once o; ko_refs := ko_refs o |}.
+  kobj_modify k (ko_with_revoked b) ;;; ret tt.
 
 (* newCachedCryptoKey: the wrapper starts with the cache's own reference *)
 Definition cck_wrap (k : nat) : M unit :=
-  o <- kobj_get k ;;
-  kobj_put k {| ko_created := ko_created o; ko_secret := ko_secret o; ko_revoked := ko_revoked o;
-                ko_once := ko_once o; ko_refs := 1 |}.
+  kobj_modify k (ko_with_refs (fun _ => 1)) ;;; ret tt.
 
 Definition key_bytes (k : nat) : M ptxt := o <- kobj_get k ;; secret_bytes (ko_secret o).
 
